@@ -427,6 +427,15 @@ def _ic(draw, d):
             'slack': draw(st.sampled_from([1.0, 1.0, 1.5, 3.0, 1000.0]))}
 
 
+def _sp_avoids_lcs(g, a, b) -> bool:
+    low = G.lowest_common(g, a, b)
+    sp = G.sp_len(g, a, b)
+    if not low or sp is None or a == b:
+        return False
+    da, db_ = G.distances(g, a), G.distances(g, b)
+    return all(da[c] + db_[c] > sp for c in low)
+
+
 @st.composite
 def _decorated(draw, graph_strategy, n_ics):
     d = draw(graph_strategy)
@@ -440,8 +449,10 @@ def _decorated(draw, graph_strategy, n_ics):
         g = G.Graph.of(d)
         multi = [] if G.has_cycle(g) else [[a, b] for a, b in allp
                                            if len(G.lowest_common(g, a, b)) >= 2]
+        # pairs whose shortest path avoids every lowest common hypernym
+        off = [] if G.has_cycle(g) else [[a, b] for a, b in allp if _sp_avoids_lcs(g, a, b)]
         drawn = draw(st.lists(st.sampled_from(allp), min_size=8, max_size=8, unique_by=tuple))
-        d['pairs'] = sorted(set(map(tuple, multi[:6] + drawn)))
+        d['pairs'] = sorted(set(map(tuple, multi[:6] + off[:4] + drawn)))
         d['pairs'] = [list(p) for p in d['pairs']]
     return d
 
@@ -460,7 +471,7 @@ def _random_big(tier):
 
 def _two_lcs(tier):
     return G.batch_of(_decorated(G.random_graph(5, 7, ('n', 'n', 'as'), limit=80,
-                                                families=('two-lcs', 'layered')), 1),
+                                                families=('two-lcs', 'layered', 'shortcut')), 1),
                       (1, 6, 8, 10, 12, 9))   # many lexicons/rowids: varied Synset hashes
 
 
@@ -480,5 +491,6 @@ SUBS = [
         require_tags=('family:layered', 'family:cyclic', 'family:diamonds')),
     Sub('several-lcs', oracle, _classify, strategy=_two_lcs,
         budget={'quick': 30, 'thorough': 60}, sample=_sample, purge_every=8, case_timeout=900,
-        require_tags=('>=2-LCS', '>=2-LCS-at-different-distances', 'family:two-lcs')),
+        require_tags=('>=2-LCS', '>=2-LCS-at-different-distances', 'family:two-lcs',
+                      'family:shortcut')),
 ]
